@@ -11,6 +11,9 @@ Oracle: key-set algebra written from the statement (plain dicts / sets / loops) 
   join(inputs, on, defaults = ...)         -> one row per k in K, ascending by key, holding row(k)
   data / expiry                            -> k in P with a past expiry keeps the supplied value and is absent from the call log,
                                               every other k of K is in the call log exactly once
+Every evaluation may be repeated on the same objects after every cell of the first result was overwritten: the statement holds for
+each evaluation, so the second one is judged by the same model (this is how aliasing of result and operands / state kept between
+calls becomes visible without asserting more than the statement).
 """
 import json
 from collections import Counter
@@ -21,37 +24,44 @@ from pv.core import Sub, Violation, call, check, short
 from pv.codec import build, Env, D0, token
 
 ASSUMPTIONS = [
-    'key cells: per key column one of five universes - ints, strings, datetimes, ints and strings mixed, or (None, NaN, 1, "a", 2.5, "b"); NaN keys of different tables are different objects and count as the same key '
-    '(key matching as in C02); no int/float twins such as 1 and 1.0; keys are unique within each table (DESIGN G)',
+    'key cells: per key column one of five universes - ints, strings (incl. ""), datetimes, ints and strings mixed, or (None, NaN, 1, "a", 2.5, "b"); NaN keys of different tables are different objects and count as the same key '
+    '(key matching as in C02); no int/float twins such as 1 and 1.0; keys are unique within each table (DESIGN G: for duplicate keys "one row per key" has no single reading and join logs a warning)',
+    'large cases: int keys 0..250 (two key columns: id // 16, id % 16), tables of 64 / 65 / 100 / 128 / 200 rows next to tables of the same length or an eighth of it, values cycling through 1-3 scalars',
     'every table input carries every column of `on` (1 or 2 key columns); tables keyed by a subset of `on` (cross join) are not claimed',
-    'the value column of a table input is named after the input, or "data", or is the only non-key column (the three selections documented in join); an extra column ("junk"; or "data" next to a column named after the input, which then wins) only accompanies the first two',
-    'input names (a, c, y, z), key names (k, j, m) and "junk"/"val_*" never collide with each other, with data/expiry, or with dictable attributes',
-    'scalars, table values and defaults are None, ints, finite floats or strings (a callable default is a formula, lists/tuples would be spread over rows by dictable)',
-    'defaults are passed explicitly (defaults = {...}); a function whose own keyword defaults act as join defaults is not used; if_none / output_is_input / include_inputs / col keep their default values',
-    'f has one positional parameter per input and none called data or expiry',
+    'the value column of a table input is named after the input, or "data", or is the only non-key column (the three selections documented in join); an extra column (junk / <input>_x / <first key>_x; or "data" next to a column '
+    'named after the input, which then wins) only accompanies the first two',
+    'names: plain scheme inputs (a, y, c, z) keys (k, j, m); nested scheme inputs (a, aa, ka, data_a) keys (k, kk, k_a) - substrings / prefixes / suffixes of one another and of "data", never equal to each other, to data / expiry, or to a dictable attribute',
+    'scalars, table values and defaults are None, ints, finite floats or strings (a callable default is a formula, lists/tuples would be spread over rows by dictable); defaults may also name an input that is not supplied (no effect)',
+    'defaults are passed explicitly (defaults = {...}); a function whose own keyword defaults act as join defaults is not used; if_none / output_is_input / include_inputs / col / renames keep their default values',
+    'f has one positional parameter per input and none called data or expiry; it returns a tuple of its arguments, its first argument, None, 0, "", False or a fresh []',
     'for an empty key set only "None or a table without rows" is asserted (DESIGN section 3 rule 2)',
     'expiry sub-check: at least one table input has no default, so the key set is an intersection and is not widened by the (outer-joined) data / expiry tables',
     'expiry sub-check: expiries are assigned to previously computed keys only (quantifier); a key with a past expiry but no supplied value (pyg-base returns None for it without calling f) is not generated',
     'expiry sub-check: previously computed keys that are no longer in the join (stale) are supplied only when the join is non-empty: with an empty join perdictable hands back the supplied data table as it is',
-    'expiries are datetime.datetime in 1970-2000 (past) or 2999-3000 (future), never today-relative; datetime.date expiries are not claimed (dt(0) is a datetime and cannot be compared with a date)',
+    'expiries are datetime.datetime in year 1-2000 (past) or 2999-9999 (future), never today-relative (so "exactly today" cannot be generated); datetime.date expiries are not claimed (dt(0) is a datetime and cannot be compared with a date)',
     'order of key cells of different types, None and NaN is judged with pyg_base.cmp (verified by C07); cells of one type with native <',
+    'operands unchanged is not asserted (the statement is silent); a repeated evaluation on the same objects must satisfy the statement again',
 ]
 
-NAMES = ['a', 'y', 'c', 'z']
-KEYCOLS = ['k', 'j', 'm']
-PAST = [['dt', 730120, 0], ['dt', 730119, 82800], ['dt', 719163, 0]]          # 2000-01-01, 1999-12-31 23:00, 1970-01-01
-FUTURE = [['dt', 1095363, 0], ['dt', 1095163, 43200]]                          # 3000-01-01, 2999-06-15 12:00
+NAMES = {'plain': ['a', 'y', 'c', 'z'], 'nested': ['a', 'aa', 'ka', 'data_a']}
+KEYCOLS = {'plain': ['k', 'j', 'm'], 'nested': ['k', 'kk', 'k_a']}
+ABSENT = {'plain': 'zz', 'nested': 'a_k'}
+PAST = [['dt', 730120, 0], ['dt', 730119, 82800], ['dt', 719163, 0], ['dt', 1, 0]]             # 2000-01-01, 1999-12-31 23:00, 1970-01-01, 0001-01-01
+FUTURE = [['dt', 1095363, 0], ['dt', 1095163, 43200], ['dt', 3652059, 86399]]                   # 3000-01-01, 2999-06-15 12:00, 9999-12-31 23:59:59
 _PAST_LIMIT = 730120 + 366
+FRETS = ['tuple', 'first', 'none', 'tuple', 'zero', 'empty_str', 'false', 'empty_list']
+LARGE_N = [64, 200, 100, 65, 128]
+LARGE_MOD = 251
 
 _val = st.one_of(st.none(), st.integers(0, 5), st.sampled_from([0.5, 2.0]), st.sampled_from(['u', 'uv', '']))
-_old = st.one_of(st.sampled_from(['old', 'old2']), st.none(), st.integers(0, 5))
+_old = st.one_of(st.sampled_from(['old', 'old2']), st.none(), st.sampled_from([0, '', 0.0, False]), st.integers(1, 5))
 
 
 def _universe(kind, n):
     if kind == 'int':
         return list(range(n))
     if kind == 'str':
-        return ['a', 'b', 'c', 'd', 'e', 'f'][:n]
+        return ['', 'a', 'b', 'c', 'd', 'e'][:n]
     if kind == 'dt':
         return [['dt', D0 + i, 0] for i in range(n)]
     if kind == 'wide':
@@ -73,6 +83,10 @@ def _dedupe(keys):
     return out
 
 
+def _is_falsy_spec(v):
+    return v is None or (isinstance(v, (bool, int, float, str)) and not v)
+
+
 # ----------------------------------------------------------------------------- the model (spec level: keys are identified by their spec)
 
 def model_keys(spec):
@@ -92,96 +106,179 @@ def model_keys(spec):
 
 
 def model_row(spec, key, built):
-    """{input name: value} at `key`; built = {name: ('scalar', v) | ('table', {kid: v})}; returns (row, default_used)"""
+    """{input name: value} at `key`; built = {name: ('scalar', v) | ('table', {kid: v})}; returns (row, names of the inputs whose default was used)"""
     defaults = dict((n, v) for n, v in spec['defaults'])
-    row, used = {}, False
+    row, used = {}, []
+    kid = _kid(key)
     for i in spec['inputs']:
         kind, v = built[i['name']]
         if kind == 'scalar':
             row[i['name']] = v
-        elif _kid(key) in v:
-            row[i['name']] = v[_kid(key)]
+        elif kid in v:
+            row[i['name']] = v[kid]
         else:
             if i['name'] not in defaults:
                 raise RuntimeError('model error: key %s missing from %s which has no default' % (key, i['name']))
             row[i['name']] = built['default:' + i['name']]
-            used = True
+            used.append(i['name'])
     return row, used
 
 
 # ----------------------------------------------------------------------------- generator
+
+def _large_key(i, nk):
+    return [i] if nk == 1 else [i // 16, i % 16]
+
 
 @st.composite
 def _case(draw, tier, want):
     big = tier != 'quick'
     if want == 'join':
         draw(st.booleans())      # de-synchronises the join cases from the perdictable cases, which share seed and generator
+    large = draw(st.sampled_from([0, 0, 0, 0, 1, 0, 0, 0, 0, 0])) == 1
+    scheme = draw(st.sampled_from(['plain', 'nested']))
     nk = draw(st.sampled_from([1, 2]))
-    on = list(draw(st.permutations(KEYCOLS)))[:nk]
-    usize = (3 if nk == 2 else 5) if not big else (4 if nk == 2 else 6)
-    unis = [_universe(draw(st.sampled_from(['int', 'str', 'dt', 'mixed', 'wide'])), usize) for _ in range(nk)]
-    allkeys = [[a] for a in unis[0]] if nk == 1 else [[a, b] for a in unis[0] for b in unis[1]]
-    keyst = st.sampled_from(allkeys)
-    def some(sizes):
-        sz = min(draw(st.sampled_from(sizes)), len(allkeys) - 1)
-        return draw(st.lists(keyst, unique_by=_kid, min_size=sz, max_size=sz))
-    base = some([2, 3, 1, 4] if not big else [2, 4, 1, 6])
+    on = list(draw(st.permutations(KEYCOLS[scheme])))[:nk]
     n = draw(st.sampled_from([2, 3, 1, 4, 2, 3]))
-    names = list(draw(st.permutations(NAMES)))[:n]
+    names = list(draw(st.permutations(NAMES[scheme])))[:n]
+
+    def valcol_extra():
+        valcol = draw(st.sampled_from(['self', 'data', 'other']))
+        if valcol == 'other':
+            return valcol, None
+        opts = [None, 'junk'] if scheme == 'plain' else [None, 'name_x', 'key_x']
+        return valcol, draw(st.sampled_from(opts + (['data'] if valcol == 'self' else [])))
+
     inputs = []
+    if not large:
+        usize = (3 if nk == 2 else 5) if not big else (4 if nk == 2 else 6)
+        unis = [_universe(draw(st.sampled_from(['int', 'str', 'dt', 'mixed', 'wide'])), usize) for _ in range(nk)]
+        allkeys = [[a] for a in unis[0]] if nk == 1 else [[a, b] for a in unis[0] for b in unis[1]]
+        rank = dict((_kid(k), r) for r, k in enumerate(allkeys))
+        keyst = st.sampled_from(allkeys)
+
+        def some(sizes):
+            sz = min(draw(st.sampled_from(sizes)), len(allkeys) - 1)
+            return draw(st.lists(keyst, unique_by=_kid, min_size=sz, max_size=sz))
+        base = some([3, 4, 2, 1] if not big else [3, 5, 2, 1, 6])
+
+        def table_keys():
+            own = some([1, 0, 2, 3] if not big else [1, 0, 3, 5])
+            # 0: own keys only, 1: base then own, 2: own then base, 3: base only, 4: the keys of base, same first and last, middle reversed (else: reversed)
+            # 5: base reversed, 6: same length, same first and last key as base, other keys in between
+            use = draw(st.sampled_from([1, 2, 3, 0, 4, 6, 1, 2, 5, 4, 6]))
+            if use == 4:
+                keys = [base[0]] + base[1:-1][::-1] + [base[-1]] if len(base) >= 4 else base[::-1]
+            elif use == 5:
+                keys = base[::-1]
+            elif use == 6:
+                others = [k for k in allkeys if _kid(k) not in set(_kid(b) for b in base)]
+                if len(base) >= 3 and others:
+                    mid = (others * len(base))[:len(base) - 2]
+                    keys = _dedupe([base[0]] + mid + [base[-1]])
+                else:
+                    keys = base[::-1]
+            else:
+                keys = _dedupe({0: own, 1: base + own, 2: own + base, 3: base}[use])
+            order = draw(st.sampled_from(['asis', 'asis', 'sorted', 'ends'])) if use < 4 else 'asis'
+            if order == 'sorted':
+                keys = sorted(keys, key=lambda k: rank[_kid(k)])
+            elif order == 'ends' and len(keys) >= 3:
+                lo, hi = min(keys, key=lambda k: rank[_kid(k)]), max(keys, key=lambda k: rank[_kid(k)])
+                keys = [lo] + [k for k in keys if k is not lo and k is not hi] + [hi]
+            return keys, [draw(_val) for _ in keys]
+
+        def stale_keys(K):
+            have = set(_kid(k) for k in K)
+            return [k for k in draw(st.lists(keyst, unique_by=_kid, max_size=2)) if _kid(k) not in have]
+    else:
+        first = {}
+
+        def table_keys():
+            if not first:
+                ln = draw(st.sampled_from(LARGE_N))
+            else:
+                how = draw(st.sampled_from(['eighth', 'same', 'mirror', 'other']))
+                ln = first['n'] if how in ('same', 'mirror') else first['n'] // 8 if how == 'eighth' else draw(st.sampled_from(LARGE_N))
+            mul = draw(st.sampled_from([7, 1, 250, 100]))
+            off = draw(st.integers(0, LARGE_MOD - 1))
+            ids = [(off + i * mul) % LARGE_MOD for i in range(ln)]
+            if first and how == 'mirror':
+                ids = first['ids'][::-1]       # the key set of the first table in the opposite order
+            if not first:
+                first.update(n=ln, ids=ids)
+            pat = draw(st.lists(_val, min_size=1, max_size=3))
+            return [_large_key(i, nk) for i in ids], [pat[i % len(pat)] for i in range(len(ids))]
+
+        def stale_keys(K):
+            have = set(_kid(k) for k in K)
+            return [k for k in [_large_key(i, nk) for i in draw(st.lists(st.integers(0, LARGE_MOD - 1), unique=True, max_size=2))] if _kid(k) not in have]
+
     for name in names:
         if draw(st.sampled_from([0, 0, 0, 1])) == 1:
             inputs.append(dict(name=name, kind='scalar', value=draw(_val)))
             continue
-        own = some([1, 0, 2, 3] if not big else [1, 0, 3, 5])
-        use = draw(st.sampled_from([1, 2, 3, 0, 1, 2]))      # 0: own keys only, 1: base then own, 2: own then base, 3: base only
-        keys = _dedupe({0: own, 1: base + own, 2: own + base, 3: base}[use])
-        valcol = draw(st.sampled_from(['self', 'data', 'other']))
-        inputs.append(dict(name=name, kind='table', keys=keys, vals=[draw(_val) for _ in keys], valcol=valcol,
-                           extra=draw(st.sampled_from([None, 'junk', 'data'] if valcol == 'self' else [None, 'junk'] if valcol == 'data' else [None])),
-                           rev=draw(st.booleans())))
+        keys, vals = table_keys()
+        valcol, extra = valcol_extra()
+        inputs.append(dict(name=name, kind='table', keys=keys, vals=vals, valcol=valcol, extra=extra, rev=draw(st.booleans())))
     defaults = []
-    for name in names:
+    for name in (names if draw(st.booleans()) else names[::-1]):
         if draw(st.sampled_from([0, 0, 0, 1])) == 1:
             defaults.append([name, draw(_val)])
-    spec = dict(on=on, on_form=draw(st.sampled_from(['list', 'str'])) if nk == 1 else 'list', inputs=inputs, defaults=defaults,
-                defaults_form=draw(st.sampled_from(['dict', 'none'])) if not defaults else 'dict')
+    absent = draw(st.sampled_from([0, 0, 0, 1, 2, 0]))
+    if absent:
+        d = [ABSENT[scheme], draw(_val)]
+        defaults = [d] + defaults if absent == 1 else defaults + [d]
+    spec = dict(on=on, on_form=draw(st.sampled_from(['list', 'str'])) if nk == 1 else 'list', scheme=scheme, size='large' if large else 'small',
+                inputs=inputs, defaults=defaults, defaults_form=draw(st.sampled_from(['dict', 'none'])) if not defaults else 'dict',
+                positional=draw(st.booleans()), fret=draw(st.sampled_from(FRETS)), again=draw(st.booleans()))
     if want != 'expiry':
         return spec
     # ---- expiry: needs a table input without default (see ASSUMPTIONS)
     dnames = set(d[0] for d in defaults)
     if not any(i['kind'] == 'table' and i['name'] not in dnames for i in inputs):
-        first = inputs[0]
-        if first['kind'] == 'scalar':
-            keys = _dedupe(base + some([1, 2]))
-            inputs[0] = first = dict(name=first['name'], kind='table', keys=keys, vals=[draw(_val) for _ in keys], valcol='self', extra=None, rev=False)
-        spec['defaults'] = [d for d in defaults if d[0] != first['name']]
+        head = inputs[0]
+        if head['kind'] == 'scalar':
+            keys, vals = table_keys()
+            if not keys:
+                keys, vals = table_keys()
+            inputs[0] = head = dict(name=head['name'], kind='table', keys=keys, vals=vals, valcol='self', extra=None, rev=False)
+        spec['defaults'] = [d for d in defaults if d[0] != head['name']]
     K = model_keys(spec)
-    prev = []
     kinds = ['no', 'absent', 'none', 'past', 'past', 'future']
-    for k in K:
-        kind = draw(st.sampled_from(kinds))
-        if kind == 'no':
-            continue
-        prev.append(dict(key=k, value=draw(_old), kind=kind,
-                         when=draw(st.sampled_from(PAST)) if kind == 'past' else draw(st.sampled_from(FUTURE)) if kind == 'future' else None))
+    prev = []
+
+    def entry(k, kind, old, **kw):
+        return dict(key=k, value=old, kind=kind, when=draw(st.sampled_from(PAST)) if kind == 'past' else draw(st.sampled_from(FUTURE)) if kind == 'future' else None, **kw)
+    if not large:
+        for k in K:
+            kind = draw(st.sampled_from(kinds))
+            if kind != 'no':
+                prev.append(entry(k, kind, draw(_old)))
+    else:
+        kpat = draw(st.lists(st.sampled_from(kinds), min_size=1, max_size=5))
+        opat = draw(st.lists(_old, min_size=1, max_size=3))
+        for r, k in enumerate(K):
+            if kpat[r % len(kpat)] != 'no':
+                prev.append(entry(k, kpat[r % len(kpat)], opat[r % len(opat)]))
     if K and draw(st.sampled_from([0, 0, 0, 1])) == 1:
-        have = set(_kid(k) for k in K)
-        for k in draw(st.lists(keyst, unique_by=_kid, max_size=2)):
-            if _kid(k) not in have:
-                kind = draw(st.sampled_from(kinds[1:]))
-                prev.append(dict(key=k, value=draw(_old), kind=kind, stale=True,
-                                 when=draw(st.sampled_from(PAST)) if kind == 'past' else draw(st.sampled_from(FUTURE)) if kind == 'future' else None))
+        for k in stale_keys(K):
+            prev.append(entry(k, draw(st.sampled_from(kinds[1:])), draw(_old), stale=True))
     if len(prev) > 1 and draw(st.booleans()):
-        prev = list(draw(st.permutations(prev)))
+        prev = list(draw(st.permutations(prev))) if len(prev) <= 8 else prev[::-1]
     spec['prev'] = prev
     spec['expcol'] = draw(st.sampled_from(['expiry', 'data']))
     spec['exp_rev'] = draw(st.booleans())               # expiry table lists its rows in the reverse order of the data table
     spec['empty_as'] = draw(st.sampled_from(['omit', 'table']))   # how an empty data / expiry table is passed
+    spec['prev_first'] = draw(st.booleans())            # data / expiry are the first keyword arguments instead of the last
     return spec
 
 
 # ----------------------------------------------------------------------------- builder
+
+def _extra_name(i, on):
+    return {'junk': 'junk', 'data': 'data', 'name_x': i['name'] + '_x', 'key_x': on[0] + '_x'}[i['extra']]
+
 
 def _build(spec):
     from pyg_base import dictable
@@ -200,13 +297,16 @@ def _build(spec):
         kenv = Env()     # every table has its own NaN key object: keys of different tables are equal, never identical
         for c, col in enumerate(on):
             cols[col] = [build(k[c], kenv) for k in i['keys']]
+        built['keys:' + name] = list(zip(*[cols[col] for col in on])) if i['keys'] else []
         vc = name if i['valcol'] == 'self' else 'data' if i['valcol'] == 'data' else 'val_' + name
         cols[vc] = vals
         if i['extra']:
-            cols[i['extra']] = [100 + r for r in range(len(vals))]
+            cols[_extra_name(i, on)] = [100 + r for r in range(len(vals))]
         order = list(cols)
         if i['rev']:
             order.reverse()
+        if len(set(order)) != len(on) + 1 + bool(i['extra']):
+            raise RuntimeError('builder: column names of table %s collide: %s' % (name, order))
         inputs[name] = dictable({c: cols[c] for c in order})
         if len(inputs[name]) != len(vals) or sorted(inputs[name].keys()) != sorted(order):
             raise RuntimeError('builder: table %s was not built as specified' % name)
@@ -218,10 +318,18 @@ def _build(spec):
     return env, inputs, built, defaults
 
 
-def _mkf(names, log):
+def _fvalue(fret, names, kw):
+    if fret == 'tuple':
+        return ('f',) + tuple(kw[n] for n in names)
+    if fret == 'first':
+        return kw[names[0]]
+    return {'none': None, 'zero': 0, 'empty_str': '', 'false': False, 'empty_list': []}[fret]
+
+
+def _mkf(names, log, fret):
     def _rec(**kw):
         log.append(kw)
-        return ('f',) + tuple(kw[n] for n in names)
+        return _fvalue(fret, names, kw)
     return eval('lambda %s: _rec(%s)' % (', '.join(names), ', '.join('%s = %s' % (n, n) for n in names)), {'_rec': _rec})
 
 
@@ -233,6 +341,14 @@ def _cellcmp(a, b):
     return call('cmp(%r, %r)' % (a, b), cmp, a, b)
 
 
+def _keycmp(x, y):
+    for a, b in zip(x, y):
+        o = _cellcmp(a, b)
+        if o:
+            return o
+    return 0
+
+
 def _check_keys(what, res, on, Kbuilt):
     """res has exactly the keys K (nothing missing, nothing extra, none twice) in strictly ascending order; returns kid-token -> row index"""
     n = len(res)
@@ -240,18 +356,14 @@ def _check_keys(what, res, on, Kbuilt):
         check(c in res.keys(), '%s: key column %s missing from the result columns %s', what, c, list(res.keys()))
     got = [tuple(res[c][r] for c in on) for r in range(n)]
     gtok = [tuple(token(x) for x in g) for g in got]
+    gset = set(gtok)
     exp = dict((tuple(token(x) for x in kb), kb) for kb in Kbuilt)
-    missing = [exp[t] for t in exp if t not in set(gtok)]
+    missing = [exp[t] for t in exp if t not in gset]
     extra = [g for g, t in zip(got, gtok) if t not in exp]
-    check(not missing and not extra and len(gtok) == len(set(gtok)) == len(exp),
-          '%s: expected one row for each of the keys %s but the result has keys %s (missing %s, unexpected %s)', what, sorted(exp.values(), key=repr), got, missing, extra)
+    check(not missing and not extra and len(gtok) == len(gset) == len(exp),
+          '%s: expected one row for each of the %s keys %s but the result has the %s keys %s (missing %s, unexpected %s)', what, len(exp), sorted(exp.values(), key=repr), len(got), got, missing, extra)
     for r in range(n - 1):
-        o = 0
-        for a, b in zip(got[r], got[r + 1]):
-            o = _cellcmp(a, b)
-            if o:
-                break
-        check(o < 0, '%s: rows are not sorted ascending by %s: key %s precedes %s', what, on, got[r], got[r + 1])
+        check(_keycmp(got[r], got[r + 1]) < 0, '%s: rows are not sorted ascending by %s: key %s precedes %s', what, on, got[r], got[r + 1])
     return dict((t, r) for r, t in enumerate(gtok))
 
 
@@ -263,8 +375,9 @@ def _check_calls(what, exp_calls, calls, names):
     """the call log of f is, as a multiset of argument tuples, exactly the rows that are to be computed: each once, nothing else"""
     got_calls = Counter(_argtok(c, names) for c in calls)
     if got_calls != exp_calls:
-        raise Violation('%s: f must be called exactly once for each row to be computed and for no other; argument tuples (%s) never/too rarely called: %s; called but not expected / called too often: %s; call log: %s'
-                        % (what, ', '.join(names), short(sorted((exp_calls - got_calls).elements(), key=repr), 200), short(sorted((got_calls - exp_calls).elements(), key=repr), 200), short(calls, 300)))
+        raise Violation('%s: f must be called exactly once for each row to be computed and for no other (%i calls expected, %i made); argument tuples (%s) never/too rarely called: %s; called but not expected / called too often: %s; call log: %s'
+                        % (what, sum(exp_calls.values()), len(calls), ', '.join(names), short(sorted((exp_calls - got_calls).elements(), key=repr), 200),
+                           short(sorted((got_calls - exp_calls).elements(), key=repr), 200), short(calls, 300)))
 
 
 def _same(a, b):
@@ -279,21 +392,91 @@ def _on_arg(spec):
     return spec['on'][0] if spec['on_form'] == 'str' else list(spec['on'])
 
 
-def _classes(spec, K, rows_used):
+def _scribble(res):
+    """overwrites every cell of a returned table in place (the lists the table holds), so that anything aliasing them shows in the second evaluation"""
+    from pyg_base import dictable
+    if isinstance(res, dictable):
+        for c in list(res.keys()):
+            col = dict.__getitem__(res, c)
+            if isinstance(col, list):
+                for r in range(len(col)):
+                    col[r] = ('#', c, r)
+
+
+def _classes(spec, K, built, used_names):
     tables = [i for i in spec['inputs'] if i['kind'] == 'table']
-    cls = ['tables=%i' % len(tables), 'inputs=%i' % len(spec['inputs']), 'nkeys=%i' % len(spec['on'])]
+    ni = len(spec['inputs'])
+    cls = ['tables=%i' % len(tables), 'inputs=%i' % ni, 'nkeys=%i' % len(spec['on']), 'names_' + spec['scheme'], 'f_returns=' + spec['fret']]
+    if spec['fret'] not in ('tuple', 'first'):
+        cls.append('f_returns_falsy')
+    if spec['again']:
+        cls.append('second_call')
+    if spec['positional']:
+        cls.append('positional')
     if len(spec['on']) == 2 and spec['on'] != sorted(spec['on']):
         cls.append('on_not_alphabetical')
-    if len(tables) < len(spec['inputs']) and tables:
+    if len(tables) < ni and tables:
         cls.append('scalar_broadcast')
+    if any(i['kind'] == 'scalar' and _is_falsy_spec(i['value']) for i in spec['inputs']):
+        cls.append('falsy_scalar')
     if any(not t['keys'] for t in tables):
         cls.append('empty_table')
-    if any(c is None or isinstance(c, list) and c[0] == 'nan' for t in tables for k in t['keys'] for c in k):
+    if any(i['kind'] == 'table' and not i['keys'] for i in spec['inputs'][1:-1]):
+        cls.append('empty_table_in_the_middle')
+    dn = [d[0] for d in spec['defaults']]
+    if any(not t['keys'] and t['name'] in dn for t in tables):
+        cls.append('empty_table_with_default')
+    if any(len(t['keys']) == 1 for t in tables):
+        cls.append('one_row_table')
+    if any(c is None or isinstance(c, list) and c[0] == 'nan' for t in tables for k in t['keys'][:8] for c in k):
         cls.append('none_or_nan_key')
-    if any(isinstance(c, list) and c[0] == 'nan' for t in tables for k in t['keys'] for c in k):
+    if any(isinstance(c, list) and c[0] == 'nan' for t in tables for k in t['keys'][:8] for c in k):
         cls.append('nan_key')
+    if any(_is_falsy_spec(c) for t in tables for k in t['keys'][:8] for c in k):
+        cls.append('falsy_key')
+    if len(spec['on']) == 2 and any(len(set(_kid(k[0]) for k in t['keys'])) < len(t['keys']) for t in tables):
+        cls.append('ties_in_first_key_column')
     if spec['defaults']:
         cls.append('has_defaults')
+    innames = [i['name'] for i in spec['inputs']]
+    if any(d not in innames for d in dn):
+        cls.append('default_for_absent_input')
+    if any(i['kind'] == 'scalar' and i['name'] in dn for i in spec['inputs']):
+        cls.append('default_on_scalar')
+    known = [d for d in dn if d in innames]
+    if len(known) >= 2 and known != [n for n in innames if n in known]:
+        cls.append('defaults_in_other_order_than_inputs')
+    # fast-path fingerprints between pairs of tables and within a table
+    for a in range(len(tables)):
+        ka = [_kid(k) for k in tables[a]['keys']]
+        for b in range(a):
+            kb = [_kid(k) for k in tables[b]['keys']]
+            if len(ka) >= 2 and ka != kb and set(ka) == set(kb):
+                cls.append('same_keyset_other_order')
+                if ka[0] == kb[0] and ka[-1] == kb[-1]:
+                    cls.append('same_keyset_same_ends_other_order')
+            if len(ka) >= 3 and len(ka) == len(kb) and ka[0] == kb[0] and ka[-1] == kb[-1] and set(ka) != set(kb):
+                cls.append('same_length_same_ends_other_keys')
+    for t in tables:
+        kb = built['keys:' + t['name']]
+        if len(kb) >= 3:
+            if all(_keycmp(kb[r], kb[r + 1]) < 0 for r in range(len(kb) - 1)):
+                cls.append('table_presorted')
+            elif all(_keycmp(kb[0], k) < 0 for k in kb[1:]) and all(_keycmp(k, kb[-1]) < 0 for k in kb[:-1]):
+                cls.append('table_ends_in_order_middle_not')
+            else:
+                cls.append('table_unsorted')
+    cls = sorted(set(cls))
+    if spec['size'] == 'large':
+        cls.append('large')
+        lens = [len(t['keys']) for t in tables]
+        for ln in set(lens):
+            if ln in LARGE_N:
+                cls.append('rows=%i' % ln)
+        if len(lens) >= 2 and min(lens) >= 1 and max(lens) >= 8 * min(lens):
+            cls.append('one_table_8x_longer')
+        if K is not None and len(K) >= 64:
+            cls.append('large_result>=64')
     nt = False
     if K is None:
         cls.append('all_scalars')
@@ -301,6 +484,8 @@ def _classes(spec, K, rows_used):
         union = _dedupe([k for t in tables for k in t['keys']])
         if not K:
             cls.append('empty_result')
+        if len(K) == 1:
+            cls.append('one_row_result')
         if len(tables) >= 2:
             sets = [set(_kid(k) for k in t['keys']) for t in tables]
             if all(not (sets[a] & sets[b]) for a in range(len(sets)) for b in range(a)):
@@ -310,14 +495,28 @@ def _classes(spec, K, rows_used):
                 nt = True
             if K and len(K) == len(union):
                 cls.append('total_overlap')
-        if rows_used:
+        if used_names:
             cls.append('default_extends_keys')
             nt = True
-        for t in tables:
-            cls.append('valcol=' + t['valcol'] + ('+' + t['extra'] if t['extra'] else ''))
+            dv = dict((n, v) for n, v in spec['defaults'])
+            if any(_is_falsy_spec(dv[n]) for n in used_names):
+                cls.append('falsy_default_fills_row')
+        for t in set(t['valcol'] + ('+' + t['extra'] if t['extra'] else '') for t in tables):
+            cls.append('valcol=' + t)
         if len(K) >= 3:
             cls.append('rows>=3')
     return nt, cls
+
+
+def _rows(spec, K, built, names):
+    """model rows of the keys K: list of (row dict, argument token), set of inputs whose default was used, whether two rows have equal arguments"""
+    rows, used = [], set()
+    for k in K:
+        row, u = model_row(spec, k, built)
+        used.update(u)
+        rows.append(row)
+    toks = [_argtok(r, names) for r in rows]
+    return rows, toks, used, len(set(toks)) < len(toks)
 
 
 # ----------------------------------------------------------------------------- perdictable without data / expiry
@@ -327,39 +526,48 @@ def run_perd(spec):
     env, inputs, built, defaults = _build(spec)
     names = [i['name'] for i in spec['inputs']]
     log = []
-    f = _mkf(names, log)
+    fret = spec['fret']
+    f = _mkf(names, log, fret)
     dflt = None if spec['defaults_form'] == 'none' else dict(defaults)
-    what = _what('perdictable', spec, inputs, defaults)
-    p = call('perdictable(f, on, defaults)', lambda: perdictable(f, on=_on_arg(spec), defaults=dflt))
-    res = call(what, lambda: p(**inputs))
-    K = model_keys(spec)
-    used_any = False
-    if K is None:
-        exp = ('f',) + tuple(inputs[n] for n in names)
-        check(isinstance(res, tuple) and len(res) == len(exp) and all(_same(a, b) for a, b in zip(res, exp)),
-              '%s: all inputs are scalars, expected f(...) = %s itself, got %s', what, exp, res)
-        check(len(log) == 1, '%s: all inputs are scalars but f was called %s times', what, len(log))
-    elif not K:
-        check(res is None or (isinstance(res, dictable) and len(res) == 0), '%s: no key is present in every table input, expected no rows, got %s', what,
-              dict(res) if isinstance(res, dictable) else res)
-        check(len(log) == 0, '%s: there are no rows but f was called with %s', what, log)
+    what0 = _what('perdictable', spec, inputs, defaults)
+    if spec['positional']:
+        p = call('perdictable(f, on, None, defaults)', lambda: perdictable(f, _on_arg(spec), None, dflt))
     else:
-        check(isinstance(res, dictable), '%s: expected a table, got %s', what, res)
+        p = call('perdictable(f, on = on, defaults = defaults)', lambda: perdictable(f, on=_on_arg(spec), defaults=dflt))
+    K = model_keys(spec)
+    used, dup = set(), False
+    if K:
         Kb = [tuple(build(c, env) for c in k) for k in K]
-        where = _check_keys(what, res, spec['on'], Kb)
-        check(sorted(res.keys()) == sorted(spec['on'] + ['data']), '%s: result columns are %s, expected the key columns and data', what, list(res.keys()))
-        calls = list(log)
-        exp_calls = Counter()
-        for k, kb in zip(K, Kb):
-            row, used = model_row(spec, k, built)
-            used_any = used_any or used
-            exp = ('f',) + tuple(row[n] for n in names)
-            got = res['data'][where[tuple(token(x) for x in kb)]]
-            check(isinstance(got, tuple) and len(got) == len(exp) and all(_same(a, b) for a, b in zip(got, exp)),
-                  '%s: the row of key %s holds %s, expected f applied to that key\'s values = %s', what, kb, got, exp)
-            exp_calls[_argtok(row, names)] += 1
-        _check_calls(what, exp_calls, calls, names)
-    nt, cls = _classes(spec, K, used_any)
+        rows, toks, used, dup = _rows(spec, K, built, names)
+
+    def once(what):
+        del log[:]
+        res = call(what, lambda: p(**inputs))
+        if K is None:
+            exp = _fvalue(fret, names, inputs)
+            check(type(res) is type(exp) and _same(res, exp), '%s: all inputs are scalars, expected f(...) = %s itself, got %s', what, exp, res)
+            check(len(log) == 1, '%s: all inputs are scalars but f was called %s times', what, len(log))
+        elif not K:
+            check(res is None or (isinstance(res, dictable) and len(res) == 0), '%s: no key is present in every table input, expected no rows, got %s', what,
+                  dict(res) if isinstance(res, dictable) else res)
+            check(len(log) == 0, '%s: there are no rows but f was called with %s', what, log)
+        else:
+            check(isinstance(res, dictable), '%s: expected a table, got %s', what, res)
+            where = _check_keys(what, res, spec['on'], Kb)
+            check(sorted(res.keys()) == sorted(spec['on'] + ['data']), '%s: result columns are %s, expected the key columns and data', what, list(res.keys()))
+            for kb, row in zip(Kb, rows):
+                exp = _fvalue(fret, names, row)
+                got = res['data'][where[tuple(token(x) for x in kb)]]
+                check(type(got) is type(exp) and _same(got, exp), '%s: the row of key %s holds %s, expected f applied to that key\'s values = %s', what, kb, got, exp)
+            _check_calls(what, Counter(toks), list(log), names)
+        return res
+    res = once(what0)
+    if spec['again']:
+        _scribble(res)
+        once(what0 + ' [second evaluation on the same objects, after every cell of the first result was overwritten]')
+    nt, cls = _classes(spec, K, built, used)
+    if dup:
+        cls.append('rows_with_equal_args')
     return dict(nt=nt, cls=cls)
 
 
@@ -371,28 +579,38 @@ def run_join(spec):
     env, inputs, built, defaults = _build(spec)
     names = [i['name'] for i in spec['inputs']]
     dflt = None if spec['defaults_form'] == 'none' else dict(defaults)
-    what = _what('join', spec, inputs, defaults)
-    res = call(what, lambda: join(dict(inputs), on=_on_arg(spec), defaults=dflt))
+    what0 = _what('join', spec, inputs, defaults)
     K = model_keys(spec)
-    used_any = False
-    check(isinstance(res, dictable), '%s: expected a table, got %s', what, res)
-    if K is None:
-        check(len(res) == 1 and all(n in res.keys() and _same(res[n][0], inputs[n]) for n in names),
-              '%s: all inputs are scalars, expected the single row %s, got %s', what, inputs, dict(res))
-    elif not K:
-        check(len(res) == 0, '%s: no key is present in every table input, expected no rows, got %s', what, dict(res))
-    else:
+    used = set()
+    if K:
         Kb = [tuple(build(c, env) for c in k) for k in K]
-        where = _check_keys(what, res, spec['on'], Kb)
-        check(sorted(res.keys()) == sorted(spec['on'] + names), '%s: result columns are %s, expected the key columns and one column per input', what, list(res.keys()))
-        for k, kb in zip(K, Kb):
-            row, used = model_row(spec, k, built)
-            used_any = used_any or used
-            r = where[tuple(token(x) for x in kb)]
-            for n in names:
-                check(_same(res[n][r], row[n]), '%s: at key %s column %s is %s, expected %s', what, kb, n, res[n][r], row[n])
-    nt, cls = _classes(spec, K, used_any)
-    return dict(nt=nt, cls=cls)
+        rows, toks, used, dup = _rows(spec, K, built, names)
+
+    def once(what):
+        if spec['positional']:
+            res = call(what, lambda: join(dict(inputs), _on_arg(spec), None, None if dflt is None else dict(dflt)))
+        else:
+            res = call(what, lambda: join(dict(inputs), on=_on_arg(spec), defaults=None if dflt is None else dict(dflt)))
+        check(isinstance(res, dictable), '%s: expected a table, got %s', what, res)
+        if K is None:
+            check(len(res) == 1 and all(n in res.keys() and _same(res[n][0], inputs[n]) for n in names),
+                  '%s: all inputs are scalars, expected the single row %s, got %s', what, inputs, dict(res))
+        elif not K:
+            check(len(res) == 0, '%s: no key is present in every table input, expected no rows, got %s', what, dict(res))
+        else:
+            where = _check_keys(what, res, spec['on'], Kb)
+            check(sorted(res.keys()) == sorted(spec['on'] + names), '%s: result columns are %s, expected the key columns and one column per input', what, list(res.keys()))
+            for kb, row in zip(Kb, rows):
+                r = where[tuple(token(x) for x in kb)]
+                for n in names:
+                    check(_same(res[n][r], row[n]), '%s: at key %s column %s is %s, expected %s', what, kb, n, res[n][r], row[n])
+        return res
+    res = once(what0)
+    if spec['again']:
+        _scribble(res)
+        once(what0 + ' [second evaluation on the same objects, after every cell of the first result was overwritten]')
+    nt, cls = _classes(spec, K, built, used)
+    return dict(nt=nt, cls=[c for c in cls if not c.startswith('f_returns')])
 
 
 # ----------------------------------------------------------------------------- data / expiry
@@ -402,6 +620,7 @@ def run_expiry(spec):
     env, inputs, built, defaults = _build(spec)
     names = [i['name'] for i in spec['inputs']]
     on = spec['on']
+    fret = spec['fret']
     K = model_keys(spec)
     if K is None:
         raise RuntimeError('expiry case without a table input')
@@ -415,13 +634,13 @@ def run_expiry(spec):
     if not K and any(p_.get('stale') for p_ in prev):
         raise RuntimeError('expiry case: stale keys with an empty join are outside the domain')
     olds = [build(p_['value'], env) for p_ in prev]
-    args = dict(inputs)
+    extra = {}
     more = ''
     if prev or spec['empty_as'] == 'table':
         kenv = Env()
         cols = dict((c, [build(p_['key'][i], kenv) for p_ in prev]) for i, c in enumerate(on))
         cols['data'] = list(olds)
-        args['data'] = dictable(cols)
+        extra['data'] = dictable(cols)
         more += ', data = %s' % short(cols, 200)
     erows = [p_ for p_ in prev if p_['kind'] != 'absent']
     if spec['exp_rev']:
@@ -430,84 +649,146 @@ def run_expiry(spec):
         kenv = Env()
         cols = dict((c, [build(p_['key'][i], kenv) for p_ in erows]) for i, c in enumerate(on))
         cols[spec['expcol']] = [None if p_['kind'] == 'none' else build(p_['when'], env) for p_ in erows]
-        args['expiry'] = dictable(cols)
+        extra['expiry'] = dictable(cols)
         more += ', expiry = %s' % short(cols, 200)
     for tname in ('data', 'expiry'):
-        if tname in args and sorted(args[tname].keys()) != sorted(on + [tname if tname == 'data' else spec['expcol']]):
-            raise RuntimeError('builder: %s table was not built as specified: %s' % (tname, dict(args[tname])))
+        if tname in extra and sorted(extra[tname].keys()) != sorted(on + [tname if tname == 'data' else spec['expcol']]):
+            raise RuntimeError('builder: %s table was not built as specified: %s' % (tname, dict(extra[tname])))
+    args = dict(extra)
+    args.update(inputs)
+    if not spec['prev_first']:
+        args = dict(inputs)
+        args.update(extra)
     log = []
-    f = _mkf(names, log)
+    f = _mkf(names, log, fret)
     dflt = None if spec['defaults_form'] == 'none' else dict(defaults)
-    what = _what('perdictable', spec, inputs, defaults, more)
-    p = call('perdictable(f, on, defaults)', lambda: perdictable(f, on=_on_arg(spec), defaults=dflt))
-    res = call(what, lambda: p(**args))
-    used_any = False
-    kinds = set()
-    if not K:
-        check(res is None or (isinstance(res, dictable) and len(res) == 0), '%s: no key is present in every table input, expected no rows, got %s', what,
-              dict(res) if isinstance(res, dictable) else res)
-        check(len(log) == 0, '%s: there are no rows but f was called with %s', what, log)
+    what0 = _what('perdictable', spec, inputs, defaults, more)
+    if spec['positional']:
+        p = call('perdictable(f, on, None, defaults)', lambda: perdictable(f, _on_arg(spec), None, dflt))
     else:
-        check(isinstance(res, dictable), '%s: expected a table, got %s', what, res)
+        p = call('perdictable(f, on = on, defaults = defaults)', lambda: perdictable(f, on=_on_arg(spec), defaults=dflt))
+    used = set()
+    kinds = Counter()
+    plan = []     # per key of K: (built key, row, kind, old value)
+    if K:
         Kb = [tuple(build(c, env) for c in k) for k in K]
-        where = _check_keys(what, res, on, Kb)
-        check(sorted(res.keys()) == sorted(on + ['data']), '%s: result columns are %s, expected the key columns and data', what, list(res.keys()))
+        rows, toks, used, dup = _rows(spec, K, built, names)
         byk = dict((_kid(p_['key']), (p_, o)) for p_, o in zip(prev, olds))
-        calls = list(log)
-        exp_calls = Counter()
-        for k, kb in zip(K, Kb):
-            row, used = model_row(spec, k, built)
-            used_any = used_any or used
-            got = res['data'][where[tuple(token(x) for x in kb)]]
+        for k, kb, row, tok in zip(K, Kb, rows, toks):
             p_, old = byk.get(_kid(k), (None, None))
             kind = 'not_computed_before' if p_ is None else p_['kind']
-            kinds.add(kind)
+            kinds[kind] += 1
+            plan.append((kb, row, tok, kind, old))
+
+    def once(what):
+        del log[:]
+        res = call(what, lambda: p(**args))
+        if not K:
+            check(res is None or (isinstance(res, dictable) and len(res) == 0), '%s: no key is present in every table input, expected no rows, got %s', what,
+                  dict(res) if isinstance(res, dictable) else res)
+            check(len(log) == 0, '%s: there are no rows but f was called with %s', what, log)
+            return res
+        check(isinstance(res, dictable), '%s: expected a table, got %s', what, res)
+        where = _check_keys(what, res, on, Kb)
+        check(sorted(res.keys()) == sorted(on + ['data']), '%s: result columns are %s, expected the key columns and data', what, list(res.keys()))
+        exp_calls = Counter()
+        for kb, row, tok, kind, old in plan:
+            got = res['data'][where[tuple(token(x) for x in kb)]]
             if kind == 'past':
-                check(_same(got, old), '%s: key %s was computed before (%s) with an expiry in the past, it must keep that value but holds %s', what, kb, old, got)
+                check(type(got) is type(old) and _same(got, old), '%s: key %s was computed before (%s) with an expiry in the past, it must keep that value but holds %s', what, kb, old, got)
             else:
-                exp_calls[_argtok(row, names)] += 1
-                exp = ('f',) + tuple(row[n] for n in names)
-                check(isinstance(got, tuple) and len(got) == len(exp) and all(_same(a, b) for a, b in zip(got, exp)),
-                      '%s: key %s (previous value: %s) must be recomputed: expected %s, the row holds %s', what, kb, kind, exp, got)
-        _check_calls(what, exp_calls, calls, names)
-    nt, cls = _classes(spec, K, used_any)
+                exp_calls[tok] += 1
+                exp = _fvalue(fret, names, row)
+                check(type(got) is type(exp) and _same(got, exp), '%s: key %s (previous value: %s) must be recomputed: expected %s, the row holds %s', what, kb, kind, exp, got)
+        _check_calls(what, exp_calls, list(log), names)
+        return res
+    res = once(what0)
+    if spec['again']:
+        if res is not extra.get('data'):
+            _scribble(res)
+        once(what0 + ' [second evaluation on the same objects, after every cell of the first result was overwritten]')
+    nt, cls = _classes(spec, K, built, used)
     pk = set(k for k in kinds if k != 'not_computed_before')
-    cls = [c for c in cls if not c.startswith('valcol=') and not c.startswith('inputs=')]
+    cls = [c for c in cls if not c.startswith('valcol=') and not c.startswith('inputs=') and not c.startswith('table_') and not c.startswith('same_')]
     cls.append('expiry_kinds=%i' % len(pk))
     for k in sorted(kinds):
         cls.append('kind=' + k)
     if len(pk) >= 3:
         cls.append('expiry_kinds>=3')
         nt = True
+    for kb, row, tok, kind, old in plan:
+        if kind != 'not_computed_before' and (old is None or not old):
+            cls.append('old=%s/%s' % ('none' if old is None else 'falsy', kind))
+    if plan:
+        if plan and all(kind == 'past' for kb, row, tok, kind, old in plan):
+            cls.append('all_rows_past')
+        srt = sorted(range(len(plan)), key=lambda r: _SortKey(plan[r][0]))
+        if plan[srt[0]][3] == 'past':
+            cls.append('first_row_past')
+        if plan[srt[-1]][3] == 'past':
+            cls.append('last_row_past')
+        if all(kind != 'not_computed_before' for kb, row, tok, kind, old in plan):
+            cls.append('every_row_computed_before')
+        if kinds.get('past') and fret not in ('tuple', 'first'):
+            cls.append('f_returns_falsy_and_past_rows')
+    if any(p_['when'] is not None and p_['when'][1] in (1, 3652059) and not p_.get('stale') for p_ in prev):
+        cls.append('extreme_date')
     if any(p_.get('stale') for p_ in prev):
         cls.append('stale_previous_keys')
     if 'data' not in args:
         cls.append('no_data_passed')
     if 'expiry' not in args:
         cls.append('no_expiry_passed')
+    if spec['prev_first'] and extra:
+        cls.append('data_expiry_first_kwargs')
     cls.append('expcol=' + spec['expcol'])
-    return dict(nt=nt, cls=cls)
+    return dict(nt=nt, cls=sorted(set(cls)))
 
 
-_RULE = ('1-4 inputs named from (a, y, c, z) in any order, each a scalar or a table with unique keys over 1-2 key columns (names from k, j, m in any order, '
-         'cells from an int / string / datetime / int+string / None+NaN+int+float+string universe of 3-6 values so that overlapping, disjoint and empty key sets all occur), value column named after '
-         'the input / "data" / sole other column, rows in arbitrary order; any subset of inputs with a default. ')
+class _SortKey(object):
+    def __init__(self, k):
+        self.k = k
+
+    def __lt__(self, other):
+        return _keycmp(self.k, other.k) < 0
+
+
+_RULE = ('1-4 inputs (plain names a, y, c, z or nested names a, aa, ka, data_a) in any order, each a scalar or a table with unique keys over 1-2 key columns (k, j, m or k, kk, k_a in any order; '
+         'cells from an int / string / datetime / int+string / None+NaN+int+float+string universe of 3-6 values so that overlapping, disjoint and empty key sets all occur; tables also as re-orderings of one '
+         'another, with equal ends and other middles, pre-sorted), ~8% large cases (int keys 0..250, 64/65/100/128/200 rows, one table up to 8x longer, cyclic values), value column named after '
+         'the input / "data" / sole other column plus look-alike extra columns, rows in arbitrary order; any subset of inputs with a default (also for absent inputs, any order, falsy values); on / defaults by keyword or position; '
+         'f returns a tuple of its arguments, its first argument, None, 0, "", False or []; half of the cases are evaluated a second time after overwriting the first result. ')
 
 SUBS = [
     Sub('perdictable', lambda tier: _case(tier, 'perd'), run_perd, quick=3000, thorough=12000,
         rule=_RULE + 'Oracle: key-set algebra (intersection of the tables without default, else union of those with default), rows ascending by key, value = f(row) with f '
-             'a recording closure, f called exactly once per row, all scalars -> f(...) itself, empty key set -> None or no rows. '
+             'a recording closure, f called exactly once per row (multiset of argument tuples), all scalars -> f(...) itself, empty key set -> None or no rows. '
              'non-trivial = >= 2 tables with non-empty non-total overlap, or a default that fills a missing key',
         floor=0.15, class_floors={'partial_overlap': 0.1, 'default_extends_keys': 0.03, 'all_scalars': 0.02, 'empty_result': 0.03, 'on_not_alphabetical': 0.1,
-                                  'disjoint_tables': 0.015, 'empty_table': 0.03, 'scalar_broadcast': 0.15, 'rows>=3': 0.2, 'nan_key': 0.03}),
+                                  'disjoint_tables': 0.01, 'empty_table': 0.03, 'scalar_broadcast': 0.15, 'rows>=3': 0.2, 'nan_key': 0.03,
+                                  'large': 0.04, 'large_result>=64': 0.02, 'one_table_8x_longer': 0.008, 'same_keyset_other_order': 0.04,
+                                  'same_keyset_same_ends_other_order': 0.005, 'same_length_same_ends_other_keys': 0.005, 'table_presorted': 0.1,
+                                  'table_ends_in_order_middle_not': 0.02, 'names_nested': 0.3, 'f_returns_falsy': 0.25, 'f_returns=none': 0.04, 'second_call': 0.2,
+                                  'rows_with_equal_args': 0.08, 'falsy_default_fills_row': 0.01, 'default_for_absent_input': 0.1, 'positional': 0.2,
+                                  'one_row_table': 0.08, 'inputs=1': 0.08, 'inputs=4': 0.05, 'falsy_key': 0.2, 'ties_in_first_key_column': 0.15,
+                                  'defaults_in_other_order_than_inputs': 0.01, 'empty_table_in_the_middle': 0.002}),
     Sub('join', lambda tier: _case(tier, 'join'), run_join, quick=3000, thorough=12000,
         rule=_RULE + 'join(inputs, on, defaults = ...) against the same key-set model: exact key set, ascending order, one column per input holding the table value / default / '
              'broadcast scalar. non-trivial as for perdictable',
         floor=0.15, class_floors={'partial_overlap': 0.1, 'default_extends_keys': 0.03, 'empty_result': 0.03, 'on_not_alphabetical': 0.1, 'scalar_broadcast': 0.15,
-                                  'rows>=3': 0.2}),
+                                  'rows>=3': 0.2, 'large': 0.04, 'large_result>=64': 0.02, 'one_table_8x_longer': 0.008, 'same_keyset_other_order': 0.04,
+                                  'same_keyset_same_ends_other_order': 0.005, 'same_length_same_ends_other_keys': 0.005, 'table_presorted': 0.1, 'names_nested': 0.3,
+                                  'second_call': 0.2, 'falsy_default_fills_row': 0.01, 'default_for_absent_input': 0.1, 'positional': 0.2, 'falsy_key': 0.2}),
     Sub('expiry', lambda tier: _case(tier, 'expiry'), run_expiry, quick=3000, thorough=12000,
-        rule=_RULE + 'At least one table without default. A data table over a subset P of the joined keys (plus, sometimes, stale keys) and an expiry table giving each key of P '
-             'one of absent / None / a past datetime (1970-2000) / a future datetime (2999-3000). Oracle: past keys keep the supplied value and are absent from the call log, '
+        rule=_RULE + 'At least one table without default. A data table over a subset P of the joined keys (plus, sometimes, stale keys; values incl. None, 0, "", 0.0, False) and an expiry table giving each key of P '
+             'one of absent / None / a past datetime (year 1-2000) / a future datetime (2999-9999); data / expiry as first or last keyword arguments. Oracle: past keys keep the supplied value and are absent from the call log, '
              'all other keys hold f(row) and f was called exactly once for each. non-trivial = as above, or >= 3 distinct expiry kinds among the keys of P',
-        floor=0.2, class_floors={'expiry_kinds>=3': 0.05, 'stale_previous_keys': 0.02, 'default_extends_keys': 0.03, 'kind=past': 0.2, 'kind=future': 0.1, 'kind=none': 0.1, 'kind=absent': 0.1, 'kind=not_computed_before': 0.2}),
+        floor=0.2, class_floors={'expiry_kinds>=3': 0.05, 'stale_previous_keys': 0.02, 'default_extends_keys': 0.03,
+                                 'kind=past': 0.2, 'kind=future': 0.1, 'kind=none': 0.1, 'kind=absent': 0.1, 'kind=not_computed_before': 0.2,
+                                 'old=none/past': 0.04, 'old=none/future': 0.02, 'old=none/none': 0.02, 'old=none/absent': 0.02,
+                                 'old=falsy/past': 0.04, 'old=falsy/future': 0.02, 'old=falsy/none': 0.02, 'old=falsy/absent': 0.02,
+                                 'data_expiry_first_kwargs': 0.1, 'extreme_date': 0.08, 'first_row_past': 0.08, 'last_row_past': 0.08, 'all_rows_past': 0.03,
+                                 'f_returns_falsy_and_past_rows': 0.07, 'large': 0.04, 'large_result>=64': 0.02, 'second_call': 0.15, 'names_nested': 0.3}),
 ]
+for _s in SUBS:
+    _s.qshards = 8
